@@ -35,25 +35,36 @@ LIB_FUNCS = {
 }
 
 
-def gen_arg(r, kind):
+EXOTIC = ("float('inf')", "float('nan')", "[float('-inf')]")
+
+
+def gen_arg(r, kind, exotic=True):
+    """An argument as a Python *expression string* (evaluated freshly for the reference and for the
+    sandbox, so the two never share a mutable object, and replay files stay plain JSON)."""
     if kind == 'int':
-        return r.choice([0, 1, 2, -1, 7, 10, 12345])
+        return repr(r.choice([0, 1, 2, -1, 7, 10, 12345]))
     if kind == 'int0':
-        return r.choice([0, 1, 2, 5, 0, 3])
+        return repr(r.choice([0, 1, 2, 5, 0, 3]))
     if kind == 'small':
-        return r.choice([0, 1, 2, 3])
+        return repr(r.choice([0, 1, 2, 3]))
     if kind == 'prompt':
-        return '<<q%d>>' % r.randint(1, 9)
+        return repr('<<q%d>>' % r.randint(1, 9))
     if kind == 'str':
-        return r.choice(['', 'a', 'hello', 'two\nlines', 'trail  ', ' lead', 'x' * 30, 'tab\t', "quote'q", 'back\\slash',
-                         'Z' * 250, '\n', 'end\n'])
+        return r.choice(["''", "'a'", "'hello'", "'two\\nlines'", "'trail  '", "' lead'", "'x' * 30", "'tab\\t'",
+                         '"quote\'q"', "'back\\\\slash'", "'Z' * 250", "'\\n'", "'end\\n'", "'{braces}'", "'%s %d'"])
     if kind == 'list':
-        return r.choice([[], [1], [1, 2, 3], list(range(120)), ['a', 'b'], [[1], [2, 3]]])
+        return r.choice(['[]', '[1]', '[1, 2, 3]', 'list(range(120))', "['a', 'b']", '[[1], [2, 3]]'])
     if kind == 'seq':
-        return r.choice(['', 'abc', [], [1, 2], 'y' * 300, list(range(90)), {'a': 1}])
+        return r.choice(["''", "'abc'", '[]', '[1, 2]', "'y' * 300", 'list(range(90))', '(1, 2)', "{'a': 1}", '{1, 2, 3}',
+                         'range(4)', "b'bytes'"])
     # any
-    return r.choice([0, 1, -5, 3.5, 'text', '', None, True, [1, 2], [1, 'a'], {'k': 1}, 'L' * 220, list(range(80)),
-                     {'a': [1, 2], 'b': None}, 1e100, -0.0, 'multi\nline', [None, True], 2 ** 70])
+    pool = (['0', '1', '-5', '3.5', "'text'", "''", 'None', 'True', '[1, 2]', "(1, 'a')", "{'k': 1}", "'L' * 220",
+                     'list(range(80))', "{'a': [1, 2], 'b': None}", '1e100', '-0.0', "'multi\\nline'", '[None, True]',
+                     '2 ** 70', "float('inf')", "float('nan')", '{1, 2}', 'frozenset([3])', "b'raw'", '(1,)', '()',
+                     '3 + 4j', 'range(3)', "{'long': 'v' * 300}", "[float('-inf')]", "'\\x00'", "'caf\\xe9'"])
+    if not exotic:
+        pool = [p for p in pool if p not in EXOTIC]
+    return r.choice(pool)
 
 
 def gen_snippet(r, idx):
@@ -76,7 +87,8 @@ def gen_snippet(r, idx):
     return "print(echo(%d))" % idx
 
 
-def gen_history(rngs, n_ops, fault_rate=0.3, fault_classes=None, io_ops=True, size=None, threaded_rate=0.0):
+def gen_history(rngs, n_ops, fault_rate=0.3, fault_classes=None, io_ops=True, size=None, threaded_rate=0.0,
+                exotic_args=True):
     from sim import seeds
     r = rngs[seeds.OPS]
     rf = rngs[seeds.FAULTS]
@@ -102,7 +114,7 @@ def gen_history(rngs, n_ops, fault_rate=0.3, fault_classes=None, io_ops=True, si
             op = {'op': 'run', 'code': gen_snippet(r, i)}
         elif c < 0.62:
             fn = r.choice(sorted(LIB_FUNCS))
-            op = {'op': 'call', 'fn': fn, 'args': [gen_arg(r, k) for k in LIB_FUNCS[fn]]}
+            op = {'op': 'call', 'fn': fn, 'args_src': [gen_arg(r, k, exotic_args) for k in LIB_FUNCS[fn]]}
             if fn == 'kw' and r.random() < 0.6:
                 op['kwargs'] = r.choice([{'b': 5}, {'c': 7}, {'b': 1, 'c': 1}])
             if r.random() < 0.15:
